@@ -1,8 +1,93 @@
 (* DBProofsIter.v -- property C11 "iteration is complete and truthful" (iterator.go: ItemIterator.Next
    = DB.v: dbiter_step, ONE critical section that re-reads the number of buckets, drains whole chains
-   into the queue until it is non-empty, and pops one item).
+   into the queue until it is non-empty, and pops one item).  No axioms (Print Assumptions at the end:
+   all "Closed under the global context").  Notation: sp = state of the database on the linear-hashing
+   chains ([chain_ops], the real index); sf = the related ([st_rel]) state of the database on the flat
+   reference index, a GHOST that carries [Inv], [CInv] and the abstraction [abs (s_disk sf)].
 
-   PRELIMINARY HEADER (rewritten at the end of the development). *)
+   0. ONE NEXT CALL, ANY INDEX (Section Iter, generic in [ops : idx_ops I])
+        it_fill_spec, it_step_spec   a Next call drains the chains it_next, it_next+1, ... (lists [ls],
+                                     one per chain, fetched by [fetch_bucket] in THIS state); then
+                                     olist r ++ queue' = queue ++ concat ls; it_next' <= numBuckets;
+                                     r = None -> queue' = [] /\ numBuckets <= it_next'.
+        scan fuel s it               Next until "done" (items returned, iterator after the last call)
+        outs n s it                  the results of n consecutive Next calls
+        quiescent_scan_items         on a state whose slots are all readable the scan returns exactly the
+                                     list [db_items] computes, then "done" for ever  (any index)
+   1. QUIESCENT SCAN, DB LEVEL
+        C11_quiescent_scan           chain index: fuel > length (abs ..) -> scan = (l, itf),
+                                     Permutation l (abs (s_disk sf)), NoDup (map fst l),
+                                     In (k,v) l <-> sget abs k = Some v, Next at itf = (itf, None) (a fixed
+                                     point, so "done" for ever), outs (length l + n) = map Some l ++ repeat
+                                     None n for EVERY n, and l is the list db_items returns.
+        C11_quiescent_scan_flat      the same for the flat index (one bucket)
+   2. INDEX LEVEL (pindex only; no database, no log)
+        fwd p p'                     numBuckets does not shrink and, for every hash h, the chain h selects
+                                     keeps its number or becomes a chain that did not exist in p
+        fwd_put / fwd_split / fwd_del / fwd_repoint (+ fwd_put_core, fwd_trans, fwd_ahead)
+                                     every index operation is [fwd] (index.split: advance_facts)
+        PInv_bucket_bidx, PInv_home_bucket   a slot lives in exactly the chain its hash selects
+        wstep, watched, iscan, C11_index_complete
+                                     a scan (fetch steps that drain any number of whole chains below the
+                                     CURRENT numBuckets) interleaved with px_put_core / px_dosplit / px_del
+                                     / px_repoint steps over states that satisfy PInv and contain exactly
+                                     one slot accepted by an abstract predicate [isk] (stable under rp_new):
+                                     when nextBucketIdx has reached numBuckets, an [isk] slot was fetched.
+   3. FRAMES (any index): db_put_frame, db_delete_frame, compact_step_frame, compact_pick_frame,
+        db_sync_frame: the new m_idx is the old one or the result of ONE ix_put / ix_del / ix_repoint;
+        m_seed never changes (write_record_seed).
+   4. CONCURRENT SCAN, DB LEVEL, CHAIN INDEX (Section Concurrent; hypothesis [params_ok P], inherited from
+      put_ok / delete_ok)
+        wr_step sp sf c lab sp' sf' c'   one writer critical section in lockstep on sp and sf: Put, Delete,
+                                     one compact_step, compact_pick, Sync, under the side conditions of
+                                     sim_* / *_ok ([roomy], valid arguments; [MetaOK sf] for the pick);
+                                     lab = what it does to the contents (WLput k v | WLdel k | WLnone)
+        w_compact', w_pick'          the flat step is determined by the chain step
+        wr_step_ok                   keeps ok := st_rel /\ Inv /\ CInv, the seed, is [fwd] on the index,
+                                     changes [sget abs] at the labelled key only
+        cscan sp sf c it ret h hn ws     the run since the iterator was created: ret = items returned,
+                                     h = every (flat) state so far, hn = the states of the Next calls,
+                                     ws = labels of the writer steps
+        C11_truthful(_queue)         every item returned (or still queued) is (k, v) with
+                                     sget (abs (s_disk sf_t)) k = Some v for the state sf_t of one of the
+                                     Next calls made so far (the one that fetched it);
+        C11_truthful_at_return       ... a call not later than the call that returns it
+        C11_complete                 sget (abs ..) k = Some v in EVERY state of h, and a Next call says
+                                     "done"  ->  In (k, v) ret
+        C11_complete_untouched       the same from: live in the current state + no Put/Delete of the run
+                                     names k (cscan_untouched: compaction, pick, Sync, and writers of
+                                     other keys never change sget abs k)
+        C11_next_total               in such a run a Next call never leaves the domain of the model
+   5. SENSITIVITY (vm_compute):  dbiter_step_with nb / dbiter_step_frozen nb0 (= dbiter_step when nb is the
+        current bucket count: dbiter_step_with_real); FrozenEx.frozen_bound_refuted: with the bound
+        captured at creation a live, untouched key is never returned (a split moved it to the new last
+        chain); FrozenEx.reread_bound_example / reread_bound_complete: the same schedule is a [cscan] run
+        (the hypotheses of section 4 are satisfiable) and the real Next returns the key.
+   6. CompactEx.compact_scan_example: a [cscan] run with pick + four compact_steps in the middle of the
+        scan; the slot of a not yet visited key is repointed; every key is returned.
+   7. DupEx.concurrent_duplicate_example: under concurrency an UNTOUCHED key can be returned TWICE
+        (a split moves an already fetched key to the new last chain): "at least once" is tight.
+
+   HOW THE PROOF OF COMPLETENESS GOES.  The invariant suggested in DESIGN.md tracks the SLOT of k through
+   the chains.  Under PInv the chain of that slot is a function of the index header alone:
+   px_bidx p (p_hash seed k) (PInv_home).  So the invariant used here is
+        In (k, v) (ret ++ queue)  \/  it_next <= px_bidx (m_idx mp) (p_hash P (m_seed mp) k)
+   together with it_next <= numBuckets; writers preserve it by [fwd] (px_level/px_split change only in
+   index.split, which sends a hash of the split chain to itself or to chain number = OLD numBuckets
+   >= it_next); a Next call that moves it_next past that chain has drained the chain in the same
+   critical section, and [flat_key_slot] + [PInv_home_bucket] put the slot of k into it.
+   px_put_other_chains / px_split_slot_forward are not needed.
+
+   DEVIATIONS FROM THE STATEMENTS AS FIRST SKETCHED (nothing was found false; these are choices)
+     - fuel: "number of slots + 1" is stated as  length (abs (s_disk sf)) < fuel  (the number of slots is
+       the number of live keys).
+     - [cscan] starts at any moment not later than the first Next call: the iterator captures nothing at
+       creation (dbiter0 is a constant), so "from the first Next call" = "from cs_start".
+     - the pick step carries [MetaOK sf] as a premise of that step (compact_pick_ok needs it, finding D14);
+       it is not part of [ok] because nothing else in this file needs it.
+     - Delete steps require [Forall byte k] (delete_preserves does).
+     - completeness is "at least once", and cannot be more (section 7); termination of a scan under
+       writers is not claimed (writers may add chains for ever). *)
 From Coq Require Import ZArith Lia ZifyN ZifyNat ZifyBool Permutation.
 From Pogreb Require Import Base BaseLemmas Crc Bytes Record RecordProofs Flat Index Spec DB DBInv
   DBLemmas DBProofsOps DBSim DBMeta DBProofsCompact.
@@ -1267,3 +1352,175 @@ Proof.
   - intros lab [<-|[]]. cbn [wl_touches]. discriminate.
 Qed.
 End FrozenEx.
+
+(* ================================================================================================ *)
+(** * 6. A Next call never fails; a run with a compaction in the middle of the scan *)
+
+Theorem C11_next_total P sp sf c it :
+  ok P sp sf c -> exists it' r, dbiter_step chain_ops sp it = Some (it', r).
+Proof.
+  intros Hok. destruct (ok_open P _ _ _ Hok) as (mp & mf & Ep & Ef & Hm & _). destruct Hok as (Hs & HI & _).
+  exact (q_step_total chain_ops sp mp Ep (chain_readable P sp sf mp mf Hs HI Ef Hm) it).
+Qed.
+
+Definition metaok_b (s : stf) : bool :=
+  match s_mem s with
+  | None => true
+  | Some m => forallb (fun g => match find_dseg (g_id g) (s_disk s) with
+                                | Some f => sm_delrec (g_meta g) =? nlen (filter rdel (f_recs f))
+                                | None => true
+                                end) (m_segs m)
+  end.
+
+Lemma metaok_b_ok s : metaok_b s = true -> MetaOK s.
+Proof.
+  unfold metaok_b, MetaOK. destruct (s_mem s) as [m|]; [|auto]. intros H g f Hg Hf.
+  pose proof (proj1 (forallb_forall _ _) H g Hg) as Hb. cbn beta in Hb. rewrite Hf in Hb.
+  apply N.eqb_eq. exact Hb.
+Qed.
+
+Lemma roomy_b_ok (sf : stf) : match s_mem sf with Some m => room_b m | None => false end = true -> roomy sf.
+Proof.
+  destruct (s_mem sf) as [m|] eqn:E; [|discriminate]. intros H. exists m. split; [exact E|].
+  apply room_b_ok. exact H.
+Qed.
+
+Module CompactEx.
+Import FrozenEx.
+(* as fzP, but every segment is worth compacting *)
+Definition cxP : params :=
+  {| p_maxseg := 1000000; p_minseg := 0; p_frag := fun _ _ => true; p_sync := false;
+     p_grow := fun nk nb => nb * 2 <? nk; p_hash := fun _ k => hd 0 k |}.
+
+Definition pk_st {I} (o : option (@DB.st I * cursor)) (d : @DB.st I) : @DB.st I :=
+  match o with Some (s, _) => s | None => d end.
+Definition pk_cur {I} (o : option (@DB.st I * cursor)) : cursor :=
+  match o with Some (_, c) => c | None => fz_c0 end.
+Definition cm_st {I} (r : @cstep I) (d : @DB.st I) : @DB.st I := match r with CMore s _ => s | _ => d end.
+Definition cm_cur {I} (r : @cstep I) : cursor := match r with CMore _ c => c | _ => fz_c0 end.
+
+(* the six keys of FrozenEx, all records in segment 0 *)
+Definition cx_p6 : stp := fold_left (fun s o => fst (step_chain cxP s o)) fz_ops (fst (db_open chain_ops cxP 1 st0)).
+Definition cx_f6 : stf := fold_left (fun s o => fst (step_flat cxP s o)) fz_ops (flat_init 1).
+(* Compact: pick (segment 0 is picked and sealed) ... *)
+Definition cx_pa : stp := pk_st (compact_pick chain_ops cxP cx_p6) cx_p6.
+Definition cx_fa : stf := pk_st (compact_pick flat_ops cxP cx_f6) cx_f6.
+Definition cx_ca : cursor := pk_cur (compact_pick chain_ops cxP cx_p6).
+(* ... start of segment 0, then the records of the keys [0], [4], [1] are promoted to segment 1 *)
+Definition cx_pb : stp := cm_st (compact_step chain_ops cxP cx_pa cx_ca) cx_pa.
+Definition cx_fb : stf := cm_st (compact_step flat_ops cxP cx_fa cx_ca) cx_fa.
+Definition cx_cb : cursor := cm_cur (compact_step chain_ops cxP cx_pa cx_ca).
+Definition cx_pc : stp := cm_st (compact_step chain_ops cxP cx_pb cx_cb) cx_pb.
+Definition cx_fc : stf := cm_st (compact_step flat_ops cxP cx_fb cx_cb) cx_fb.
+Definition cx_cc : cursor := cm_cur (compact_step chain_ops cxP cx_pb cx_cb).
+Definition cx_pd : stp := cm_st (compact_step chain_ops cxP cx_pc cx_cc) cx_pc.
+Definition cx_fd : stf := cm_st (compact_step flat_ops cxP cx_fc cx_cc) cx_fc.
+Definition cx_cd : cursor := cm_cur (compact_step chain_ops cxP cx_pc cx_cc).
+Definition cx_pe : stp := cm_st (compact_step chain_ops cxP cx_pd cx_cd) cx_pd.
+Definition cx_fe : stf := cm_st (compact_step flat_ops cxP cx_fd cx_cd) cx_fd.
+Definition cx_ce : cursor := cm_cur (compact_step chain_ops cxP cx_pd cx_cd).
+
+(* (hash, segment, offset) of every slot, chain by chain *)
+Definition cx_slots (s : stp) : list (list (N * N * N)) :=
+  match s_mem s with
+  | Some m => map (fun c => map (fun sl => (sl_h sl, sl_seg sl, sl_off sl)) (concat c)) (px_chains (m_idx m))
+  | None => []
+  end.
+
+Example cx_repointed :
+  cx_slots cx_p6 = [[(0, 0, 512); (4, 0, 525)]; [(1, 0, 538); (3, 0, 551)]; [(2, 0, 564); (6, 0, 577)]] /\
+  cx_slots cx_pe = [[(0, 1, 512); (4, 1, 525)]; [(1, 1, 538); (3, 0, 551)]; [(2, 0, 564); (6, 0, 577)]].
+Proof. split; vm_compute; reflexivity. Qed.
+
+Lemma cxP_ok : params_ok cxP.
+Proof. vm_compute. reflexivity. Qed.
+
+Lemma cx_ok6 : ok cxP cx_p6 cx_f6 fz_c0.
+Proof.
+  pose proof (init_rel cxP 1) as H. rewrite flat_open_fresh in H.
+  assert (H0 : st_rel (fst (db_open chain_ops cxP 1 st0)) (flat_init 1) /\ Inv cxP (flat_init 1)).
+  { destruct (db_open chain_ops cxP 1 st0) as [sp o]. cbn [fst]. tauto. }
+  destruct H0 as [H0 I0].
+  destruct (chain_run_states cxP _ _ fz_ops cxP_ok H0 I0) as (A & B & _).
+  - apply ops_valid_b_ok. vm_compute. reflexivity.
+  - apply rooms_b_ok. vm_compute. reflexivity.
+  - split; [exact A|]. split; [exact B|].
+    destruct (s_mem cx_f6) as [m|] eqn:E; [|vm_compute in E; discriminate].
+    exists m. split; [exact E|]. split; [intros x []|]. split; [constructor|]. split; [exact I|].
+    intros x [].
+Qed.
+
+Ltac cx_compact R sp' sf' c' :=
+  match type of R with
+  | cscan ?P ?sp ?sf ?c ?it ?ret ?h ?hn ?ws =>
+    let W := fresh "W" in
+    assert (W : wr_step P sp sf c WLnone sp' sf' c')
+      by (apply w_compact; [apply roomy_b_ok; vm_compute; reflexivity
+                           |vm_compute; reflexivity|vm_compute; reflexivity]);
+    let R' := fresh "R" in
+    pose proof (cs_write P sp sf c it ret h hn ws WLnone sp' sf' c' R W) as R'; clear W
+  end.
+
+(* one Next call; pick; four critical sections of Compact (the last one repoints the slot of key [1],
+   which the scan has not reached yet); the rest of the scan: every key is returned once *)
+Theorem compact_scan_example :
+  exists it ret h hn,
+    cscan cxP cx_pe cx_fe cx_ce it ret h hn [WLnone; WLnone; WLnone; WLnone; WLnone] /\
+    dbiter_step chain_ops cx_pe it = Some (it, None) /\
+    ret = [(kk 0, vv 0); (kk 4, vv 4); (kk 1, vv 1); (kk 3, vv 3); (kk 2, vv 2); (kk 6, vv 6)].
+Proof.
+  pose proof (cs_start cxP cx_p6 cx_f6 fz_c0 cx_ok6) as R0.
+  fz_next R0.
+  assert (W : wr_step cxP cx_p6 cx_f6 fz_c0 WLnone cx_pa cx_fa cx_ca).
+  { apply w_pick; [apply metaok_b_ok; vm_compute; reflexivity|vm_compute; reflexivity|vm_compute; reflexivity]. }
+  pose proof (cs_write _ _ _ _ _ _ _ _ _ _ _ _ _ R W) as R1. clear W.
+  cx_compact R1 cx_pb cx_fb cx_cb.
+  cx_compact R2 cx_pc cx_fc cx_cc.
+  cx_compact R3 cx_pd cx_fd cx_cd.
+  cx_compact R4 cx_pe cx_fe cx_ce.
+  fz_next R5. fz_next R6. fz_next R7. fz_next R8. fz_next R9. fz_next R10.
+  eexists _, _, _, _. split; [exact R11|]. split; [vm_compute; reflexivity|reflexivity].
+Qed.
+End CompactEx.
+
+(* ================================================================================================ *)
+Print Assumptions it_step_spec.
+Print Assumptions quiescent_scan_items.
+Print Assumptions C11_quiescent_scan.
+Print Assumptions C11_quiescent_scan_flat.
+Print Assumptions C11_index_complete.
+Print Assumptions wr_step_ok.
+Print Assumptions C11_truthful.
+Print Assumptions C11_truthful_queue.
+Print Assumptions C11_truthful_at_return.
+Print Assumptions C11_complete.
+Print Assumptions C11_complete_untouched.
+Print Assumptions C11_next_total.
+Print Assumptions dbiter_step_with_real.
+Print Assumptions FrozenEx.frozen_bound_refuted.
+Print Assumptions FrozenEx.reread_bound_example.
+Print Assumptions FrozenEx.reread_bound_complete.
+Print Assumptions CompactEx.compact_scan_example.
+
+(* ================================================================================================ *)
+(** * 7. "At least once" cannot be improved to "exactly once" while writers run *)
+
+Module DupEx.
+Import FrozenEx.
+(* four keys, two chains {0,2} {1,3} (level 1, split pointer 0).  The first Next call drains chain 0
+   and returns [0]; then the Put of a fifth key splits chain 0: key [2], already queued, moves to the
+   new last chain 2, which the scan visits later: [2] is returned twice (no writer ever named it). *)
+Definition du_ops : list op := map (fun h => OpPut (kk h) (vv h)) [0; 2; 1; 3].
+Definition du_p4 : stp := fold_left (fun s o => fst (step_chain fzP s o)) du_ops fz_p0.
+Definition du_p5 : stp := fst (db_put chain_ops fzP (kk 5) (vv 5) du_p4).
+Definition du_it1 : dbiter := {| it_next := 1; it_queue := [(kk 2, vv 2)] |}.
+
+Theorem concurrent_duplicate_example :
+  fz_shape du_p4 = (1, 0, [[[0; 2]]; [[1; 3]]]) /\
+  fz_shape du_p5 = (1, 1, [[[0]]; [[1; 3; 5]]; [[2]]]) /\
+  dbiter_step chain_ops du_p4 dbiter0 = Some (du_it1, Some (kk 0, vv 0)) /\
+  outs chain_ops 6 du_p5 du_it1 =
+    [Some (kk 2, vv 2); Some (kk 1, vv 1); Some (kk 3, vv 3); Some (kk 5, vv 5); Some (kk 2, vv 2); None].
+Proof. repeat split; vm_compute; reflexivity. Qed.
+End DupEx.
+Print Assumptions DupEx.concurrent_duplicate_example.
